@@ -226,6 +226,13 @@ def run_case(case, part):
             part.transitions += 1
             if not _check_against(nxt, nt, nv, ne, unit, cov, part, c2, "after " + repr(h)):
                 continue
+            # the object's public reference epoch and the number the samplers read must agree after every operation (which epoch a
+            # selection gets is not fixed by the property)
+            if (nxt.t_ref is None) != (float(nxt._t_ref_bmjd) == 0.0 and nxt.t_ref is None) or \
+                    (nxt.t_ref is not None and abs(float(nxt.t_ref.tcb.mjd) - float(nxt._t_ref_bmjd)) > 1e-9):
+                part.violation(c2, "t_ref and the internal reference epoch disagree after " + repr(h), expected=None if nxt.t_ref is None else float(nxt.t_ref.tcb.mjd),
+                               observed=float(nxt._t_ref_bmjd))
+                continue
             if op[0] == "timeseries" and obj.t_ref is not None:
                 a, b = obj.t_ref, nxt.t_ref
                 if b is None or abs(float(a.tcb.mjd) - float(b.tcb.mjd)) > 1e-9:
